@@ -30,9 +30,13 @@ BUDGET = 0.5
 def plan(tier, seed):
     q = tier == "quick"
     n = 10 if q else 44
-    return [{"salt": i, "random_plans": 4 if q else 16, "pairs": 3 if q else 30,
+    shards = [{"salt": i, "random_plans": 4 if q else 16, "pairs": 3 if q else 30,
              "frag_delay": (i % 4 == 0) if q else True, "long_hangs": (i % 3 == 1) if q else (i % 2 == 0), "extra_delays": [0.8] if q else [0.2, 0.5, 1.0], "n_extra": 2 if q else 4,
              "load": (not q) and i % 6 == 5} for i in range(n)]
+    for sh in shards:
+        if sh["load"]:
+            sh["exclusive"] = True  # burner processes must not disturb the timing of the other shards
+    return [sh for sh in shards if not sh["load"]] + [sh for sh in shards if sh["load"]]
 
 
 def view(r):
@@ -101,6 +105,10 @@ def run_plan(b, inj, batch, fplan, base, mcs_ids, res, tag, base_dt=None, confir
     # a timeout on a job that nobody touched and that needed < budget/5 in the fault-free run cannot be
     # spontaneous on an unloaded machine: it was induced by somebody else's fault (containment failure).
     # Confirmed by repeating the plan once; not judged in the deliberately loaded shards.
+    import os
+    if not loaded and os.getloadavg()[0] > 1.5 * (os.cpu_count() or 1):
+        loaded = True  # somebody else is loading the machine: spontaneous timeouts are to be expected
+        res.count("plans_under_external_load")
     if base_dt is not None and not loaded:
         suspects = sorted({str(ev[1]) for ev in log if ev[0] == "search_timeout"
                            and str(ev[1]) not in affected
